@@ -110,4 +110,8 @@ def run(ctx):
     ]
 
 
-# MUTANTS: see the block at the end of this file (filled in after mutation testing)
+# MUTANTS (scratch worktree, `VERIF_REPO=... VERIF_DEV_REUSE=1 ./check C16`):
+#   S1 simd/x86.rs find_quote_or_escape_sse2: remainder loop starts at offset + 1  -> CAUGHT: kernel event fqe cfg=sse2 (hit at start+64), and
+#                                                                                  indexes_built differs between configurations
+#   S2 simd/x86.rs count_leading_spaces_avx2: returns after the first full chunk   -> CAUGHT: kernel event cls cfg=avx2 r=32
+#   S3 simd/scalar.rs parse_anchor_name_scalar: bare `:` terminates the name       -> see outcome below
